@@ -1,7 +1,7 @@
 (** * C05 — divergence certificates: a canonical run that repeats a machine state never halts.
     (The backend side of C05 is validated per program against these certificates, see DESIGN §4.) *)
 From Coq Require Import ZArith List Bool.
-From HPBF Require Import Cell IO BF Machines MachineProofs BigStepProofs.
+From HPBF Require Import Cell IO BF IR Parse Machines MachineProofs BigStepProofs Level0Proofs Level0Back.
 Import ListNotations.
 
 (** if the certificate checker accepts (i, d) — the configurations after i and after i+d+1 steps
@@ -31,6 +31,14 @@ Theorem C05_oracle_is_spec : forall w e p o, terminal o ->
   (exists n, bf_steps w e n {| c_ctl := p; c_kont := []; c_st := bf0 |} = o).
 Proof. exact big_step_machine. Qed.
 
+(** level 0: a canonically divergent program never returns from the IR interpreter run on the
+    parser's output (model level: no amount of fuel makes [IR.ir_exec] end) *)
+Theorem C05_level0_divergence : forall w e src p blk, 1 <= w ->
+  ast_of_source src = Some p -> parse w src = POk blk ->
+  (forall f, ~ terminal (bf_exec w e f p bf0)) ->
+  forall fi, ~ iterminal (ir_run w e false 0 fi blk).
+Proof. exact level0_divergence. Qed.
+
 Example C05_nonvacuous :
   (* +[.-+] : prints 01 forever *)
   cert_ok 8 {| input := []; in_absent := false; in_fail_at := None; out_present := true; out_fail_at := None |}
@@ -40,3 +48,4 @@ Proof. vm_compute. reflexivity. Qed.
 Print Assumptions C05_state_repeat_diverges.
 Print Assumptions C05_equiv_runs.
 Print Assumptions C05_oracle_is_spec.
+Print Assumptions C05_level0_divergence.
